@@ -416,7 +416,16 @@ pub fn gen_read_scn(id: &str, rng: &Rng, tier: Tier) -> ReadScn {
                 }
                 _ => ops_next_to_end(n),
             };
-            ReadScn { fmt, input, cfgs: vec![cfg], ops, mon: Monitors::default(), profile: class.into() }
+            let mut ops = ops;
+            let mut profile = class.to_string();
+            if rng.chance(1, 12) {
+                // the reader is reconfigured in mid-stream (`set_policy` on the used reader, also after
+                // the end): another permissive policy must not disturb the stream of records
+                let at = rng.below(ops.len() as u64 + 1) as usize;
+                ops.insert(at, Op::SetPolicy(gen_permissive_policy(rng, input.len())));
+                profile.push_str("/policy_swapped");
+            }
+            ReadScn { fmt, input, cfgs: vec![cfg], ops, mon: Monitors::default(), profile }
         }
         "C04" | "C05" => {
             let fmt = if rng.chance(1, 2) { Fmt::Fasta } else { Fmt::Fastq };
